@@ -233,6 +233,10 @@ def rand_group(rng, kind, nreq):
             h = rng.choice(R_HOSTS)
         elif x < 0.48:
             h = ["".join(h[:-1]) + "x" + h[-1]] if len(h) > 1 else h
+        elif x < 0.58 and p and "." not in p[0] and p[0]:
+            h, p = h + [p[0]], p[1:]          # the first path segment written as a further host label (same number of parts)
+        elif x < 0.63 and len(h) > 1:
+            h, p = h[:-1], [h[-1]] + p        # the last host label written as first path segment
         if rng.random() < 0.15 and p:
             # degenerate spellings: empty segment, "." / "..", encoded slash - in place of or before a segment
             j = rng.randrange(len(p))
@@ -688,7 +692,7 @@ def run(ctx):
     ctx.log("executed %d cases; %d real verdict pairs differ from the model's; %d in the known trailing-slash class; %d blocks to validate"
             % (ncases, drift, nts, len(blocks)))
     need = [c + "@" + k for k in ("policy", "flow", "engine")
-            for c in ("engine-match", "proxy-over-match", "special-char-matched", "odd-param-name-matched", "wildcard-zero-tail", "trailing-slash-matched", "host-case-variant", "empty-segment")
+            for c in ("engine-match", "proxy-over-match", "special-char-matched", "odd-param-name-matched", "wildcard-zero-tail", "trailing-slash-matched", "host-case-variant", "empty-segment", "host-boundary-moved")
             if not (c == "wildcard-zero-tail" and k != "policy")] + ["no-method-filter-HEAD@flow", "no-method-filter-HEAD@engine",
                                                                     "two-flows-one-url@flow", "two-flows-one-url@engine",
                                                                     "catch-all@engine", "catch-all-with-methods@engine"]
